@@ -32,10 +32,10 @@ inductive Arg where
 
 /-! ### decimal integers (own printer: the round trip is proved about it) -/
 
-def digitChar (d : Nat) : Char := Char.ofNat (48 + d)
+def idigitChar (d : Nat) : Char := Char.ofNat (48 + d)
 
 def natStr (n : Nat) : Str :=
-  if _h : n < 10 then [digitChar n] else natStr (n / 10) ++ [digitChar (n % 10)]
+  if _h : n < 10 then [idigitChar n] else natStr (n / 10) ++ [idigitChar (n % 10)]
 termination_by n
 decreasing_by omega
 
